@@ -216,11 +216,14 @@ pub proof fn lemma_acc(o0: Seq<u8>, acc: Seq<u8>, before: Seq<u8>, x: Seq<u8>, a
 impl MerkleBranch {
 //@extract fn src/blockchain/proto/mod.rs :: impl MerkleBranch :: new
 //@spec
-        ensures r.hashes == hashes, r.side_mask == side_mask,
+        ensures r.hashes == hashes, r.side_mask == side_mask, r == (MerkleBranch { hashes, side_mask }),
 //@end
 }
 pub open spec fn branch_wire(b: MerkleBranch, cnt: VarUint) -> Seq<u8> {
     cnt.buf@ + hashes_wire(b.hashes@, b.hashes@.len() as int) + le32(b.side_mask)
+}
+pub open spec fn branch_consumed(before: Seq<u8>, after: Seq<u8>, b: MerkleBranch) -> bool {
+    exists|c: VarUint| before =~= #[trigger] branch_wire(b, c) + after && varuint_wf(c) && c.value == b.hashes@.len()
 }
 pub open spec fn hashes_wire(s: Seq<[u8; 32]>, n: int) -> Seq<u8>
     decreases n
@@ -247,6 +250,28 @@ pub open spec fn txs_consumed(before: Seq<u8>, after: Seq<u8>, txs: Seq<RawTx>, 
             txs_consumed(before, mid, txs, n - 1) && #[trigger] tx_consumed(mid, after, txs[n - 1], marker, wit)
     }
 }
+
+pub proof fn lemma_txs_prefix(before: Seq<u8>, after: Seq<u8>, a: Seq<RawTx>, b: Seq<RawTx>, n: int)
+    requires 0 <= n <= a.len(), n <= b.len(), forall|i: int| 0 <= i < n ==> a[i] == b[i], txs_consumed(before, after, a, n),
+    ensures txs_consumed(before, after, b, n),
+    decreases n
+{
+    if n > 0 {
+        let (mid, marker, wit) = choose|mid: Seq<u8>, marker: Seq<u8>, wit: Seq<u8>|
+            txs_consumed(before, mid, a, n - 1) && #[trigger] tx_consumed(mid, after, a[n - 1], marker, wit);
+        lemma_txs_prefix(before, mid, a, b, n - 1);
+        assert(txs_consumed(before, mid, b, n - 1) && tx_consumed(mid, after, b[n - 1], marker, wit));
+    }
+}
+pub proof fn lemma_txs_fold(before: Seq<u8>, mid: Seq<u8>, after: Seq<u8>, txs: Seq<RawTx>, n: int, marker: Seq<u8>, wit: Seq<u8>)
+    requires n >= 1, txs_consumed(before, mid, txs, n - 1), tx_consumed(mid, after, txs[n - 1], marker, wit),
+    ensures txs_consumed(before, after, txs, n),
+{ }
+pub proof fn lemma_hashes_prefix(a: Seq<[u8; 32]>, b: Seq<[u8; 32]>, n: int)
+    requires 0 <= n <= a.len(), n <= b.len(), forall|i: int| 0 <= i < n ==> a[i] == b[i],
+    ensures hashes_wire(a, n) == hashes_wire(b, n),
+    decreases n
+{ if n > 0 { lemma_hashes_prefix(a, b, n - 1); } }
 
 pub open spec fn aux_consumed_w(before: Seq<u8>, after: Seq<u8>, a: AuxPowExtension, mid: Seq<u8>, marker: Seq<u8>, wit: Seq<u8>, c1: VarUint, c2: VarUint) -> bool {
     &&& tx_consumed(before, mid, a.coinbase_tx, marker, wit)
@@ -511,21 +536,68 @@ pub trait BlockchainRead: Read {
         }
 //@end
 
-    /// `(0..tx_count).map(|_| self.read_tx(version_id)).collect()` -- iterator adapters are outside
-    /// Verus; checked on the real code by a bounded Kani harness (reader_read_txs_bounded)
-    #[verifier::external_body]
-    fn read_txs(&mut self, tx_count: u64, version_id: u8) -> (r: Result<Vec<RawTx>>)
+//@extract fn src/blockchain/parser/reader.rs :: trait BlockchainRead: Read :: read_txs
+//@vis none
+//@idiom I28 `(0..`
+//--pre
+        let ghost o0 = self.rem();
+        assert(txs_consumed(o0, self.rem(), Seq::<RawTx>::empty(), 0));
+//--inv
+            invariant
+                v__@.len() == i__, v__@.len() == it__.index@, it__.snapshot.start == 0, it__.snapshot.end == tx_count,
+                //# C01:transactions_parsed_back_to_back_in_block_order
+                txs_consumed(o0, self.rem(), v__@, i__ as int),
+                forall|k: int| 0 <= k < v__@.len() ==> tx_wf(#[trigger] v__@[k]),
+//--top
+            let ghost old_v = v__@;
+            let ghost mid0 = self.rem();
+//--body
+            proof {
+                lemma_txs_prefix(o0, mid0, old_v, v__@, old_v.len() as int);
+                let (marker, wit) = choose|marker: Seq<u8>, wit: Seq<u8>| tx_consumed(mid0, self.rem(), x__, marker, wit);
+                assert(v__@[i__ as int] == x__);
+                assert(txs_consumed(o0, mid0, v__@, i__ as int) && tx_consumed(mid0, self.rem(), v__@[i__ as int], marker, wit));
+                lemma_txs_fold(o0, mid0, self.rem(), v__@, i__ as int + 1, marker, wit);
+            }
+//@spec
         ensures r is Ok ==> r->Ok_0@.len() == tx_count
             && txs_consumed(old(self).rem(), final(self).rem(), r->Ok_0@, tx_count as int)
             && forall|i: int| 0 <= i < tx_count ==> tx_wf(#[trigger] r->Ok_0@[i])
-    { unimplemented!() }
+//@end
 
-    /// same shape (`map(|_| self.read_256hash()).collect()`); bounded Kani harness reader_merkle_branch_bounded
-    #[verifier::external_body]
-    fn read_merkle_branch(&mut self) -> (r: Result<MerkleBranch>)
-        ensures r is Ok ==> exists|c: VarUint| old(self).rem() =~= #[trigger] branch_wire(r->Ok_0, c) + final(self).rem()
-            && varuint_wf(c) && c.value == r->Ok_0.hashes@.len()
-    { unimplemented!() }
+//@extract fn src/blockchain/parser/reader.rs :: trait BlockchainRead: Read :: read_merkle_branch
+//@vis none
+//@idiom I28 `(0..`
+//--pre
+        let ghost o1 = self.rem();
+//--inv
+            invariant
+                v__@.len() == i__, v__@.len() == it__.index@, it__.snapshot.start == 0, it__.snapshot.end == branch_length.value, varuint_wf(branch_length),
+                //# C12:branch_hashes_read_back_to_back
+                o1 =~= hashes_wire(v__@, v__@.len() as int) + self.rem(), o0 =~= branch_length.buf@ + o1,
+//--top
+            let ghost old_v = v__@;
+//--body
+            proof { lemma_hashes_prefix(old_v, v__@, old_v.len() as int); }
+//@spec
+        ensures
+            //# C12:merkle_branch_consumes_count_hashes_mask
+            r is Ok ==> branch_consumed(old(self).rem(), final(self).rem(), r->Ok_0),
+//@before `let branch_length = VarUint::read_from(self)?;`
+        let ghost o0 = self.rem();
+//@before `let side_mask = self.read_u32::<LittleEndian>()?;`
+        let ghost m2 = self.rem();
+//@before `Ok(MerkleBranch::new(hashes, side_mask))`
+        proof {
+            let mb = MerkleBranch { hashes, side_mask };
+            assert(m2 =~= le32(side_mask) + self.rem());
+            assert(o0 =~= branch_length.buf@ + (hashes_wire(hashes@, hashes@.len() as int) + m2));
+            assert(o0 =~= branch_wire(mb, branch_length) + self.rem());
+            assert(varuint_wf(branch_length));
+            assert(branch_length.value == hashes@.len());
+            assert(branch_consumed(o0, self.rem(), mb));
+        }
+//@end
 
 //@extract fn src/blockchain/parser/reader.rs :: trait BlockchainRead: Read :: read_block
 //@vis none
